@@ -80,6 +80,9 @@ pub struct Layout {
     pub objstm_containers: Vec<Vec<u32>>,
     pub xref_stream_ids: Vec<Option<u32>>,
     pub compressed: BTreeMap<u32, (u32, u32)>,
+    /// integer objects that hold the Length of an object-stream container (they are ordinary
+    /// objects of the document, but replacing one by something else makes the file invalid)
+    pub container_length_objs: BTreeSet<u32>,
 }
 
 #[derive(Clone, Debug)]
@@ -766,10 +769,25 @@ impl<'a> Em<'a> {
                 parms.push((b"Colors".to_vec(), MObj::Int(1)));
                 parms.push((b"BitsPerComponent".to_vec(), MObj::Int(8)));
             }
-            d.push((b"DecodeParms".to_vec(), MObj::Dict(parms)));
+            self.single_filter(d, b"FlateDecode", Some(parms));
+        } else {
+            self.single_filter(d, b"FlateDecode", None);
         }
-        d.push((b"Filter".to_vec(), MObj::Name(b"FlateDecode".to_vec())));
         self.flate(&body)
+    }
+
+    /// The three legal spellings of one filter with its parameters: name + dictionary, array of one
+    /// name + dictionary, array of one name + array of one dictionary.
+    fn single_filter(&self, d: &mut MDict, name: &[u8], parms: Option<MDict>) {
+        let spelling = if self.f == 0 { 0 } else { self.d(4, "filter-spelling").saturating_sub(1) };
+        if spelling > 0 {
+            self.ctx.count(if spelling == 1 { "filter-array-of-one" } else { "filter-and-parms-arrays-of-one" });
+        }
+        if let Some(parms) = parms {
+            d.push((b"DecodeParms".to_vec(), if spelling == 2 { MObj::Array(vec![MObj::Dict(parms)]) } else { MObj::Dict(parms) }));
+        }
+        let n = MObj::Name(name.to_vec());
+        d.push((b"Filter".to_vec(), if spelling == 0 { n } else { MObj::Array(vec![n]) }));
     }
 
     fn encode_lzw_structural(&self, d: &mut MDict, data: Vec<u8>, cols: usize) -> Vec<u8> {
@@ -787,10 +805,7 @@ impl<'a> Em<'a> {
             self.ctx.count("struct-lzw-early-change-0");
             parms.push((b"EarlyChange".to_vec(), MObj::Int(0)));
         }
-        if !parms.is_empty() {
-            d.push((b"DecodeParms".to_vec(), MObj::Dict(parms)));
-        }
-        d.push((b"Filter".to_vec(), MObj::Name(b"LZWDecode".to_vec())));
+        self.single_filter(d, b"LZWDecode", if parms.is_empty() { None } else { Some(parms) });
         if self.d(3, "lzw-literal-only") == 1 {
             self.ctx.count("struct-lzw-literal-codes-only");
             lzw_encode_literals(&body)
@@ -926,6 +941,7 @@ pub fn write_history_on(ctx: &Ctx, seed: Option<&Seed>, revisions: &[Revision], 
     let mut max_num: u32 = seed.map_or(0, |sd| sd.max_num);
     let mut prev_xref: Option<u64> = seed.map(|sd| sd.prev_xref);
     let (mut expect, mut structural_ids) = (Vec::new(), Vec::new());
+    let mut emitted_containers: Vec<u32> = Vec::new();
 
     for (ri, rev) in revisions.iter().enumerate() {
         let style = opts.styles.get(ri).or(opts.styles.last()).copied().unwrap_or(XrefStyle::Table);
@@ -942,6 +958,8 @@ pub fn write_history_on(ctx: &Ctx, seed: Option<&Seed>, revisions: &[Revision], 
         let mut len_pairs: Vec<(u32, u32)> = Vec::new(); // (stream number, Length object number)
         // Length objects handed out in this revision, by value: streams of equal length may share one
         let mut length_objs: BTreeMap<usize, u32> = BTreeMap::new();
+        // those of them written as plain objects (a container's own Length cannot live in a container)
+        let mut plain_length_objs: BTreeMap<usize, u32> = BTreeMap::new();
         for (id, o) in &rev.objects {
             let mut o = o.clone();
             max_num = max_num.max(id.0);
@@ -966,6 +984,7 @@ pub fn write_history_on(ctx: &Ctx, seed: Option<&Seed>, revisions: &[Revision], 
                         members.push((n, lo));
                     } else {
                         len_pairs.push((id.0, n));
+                        plain_length_objs.insert(body.len(), n);
                         plain.push(((n, 0), lo));
                     }
                 }
@@ -1027,6 +1046,8 @@ pub fn write_history_on(ctx: &Ctx, seed: Option<&Seed>, revisions: &[Revision], 
 
         // ---- body
         let mut ents: BTreeMap<u32, Ent> = BTreeMap::new();
+        // Length integers of containers, decided while the body is written
+        let mut late: Vec<(u32, MObj)> = Vec::new();
         for (id, _) in &rev.objects {
             layout.compressed.remove(&id.0);
         }
@@ -1061,14 +1082,55 @@ pub fn write_history_on(ctx: &Ctx, seed: Option<&Seed>, revisions: &[Revision], 
                     while content.len() % cols != 0 {
                         content.push(b' ');
                     }
-                    let body = e.encode_structural(&mut d, content, cols, ["objstm-flate", "objstm-predictor"]);
-                    d.push((b"Length".to_vec(), int(body.len() as u64)));
+                    let mut body = e.encode_structural(&mut d, content, cols, ["objstm-flate", "objstm-predictor"]);
+                    // A container's Length may be an indirect integer too, and one it shares with
+                    // other streams of the revision (an unfiltered container is padded with white-space
+                    // up to the shared value). The integer object is a plain object written after the body.
+                    let mut length = int(body.len() as u64);
+                    if avoid & AVOID_INDIRECT_LENGTH == 0 && e.p([0, 150, 400], "objstm-length-indirect") {
+                        ctx.count("objstm-length-indirect");
+                        let raw = dict_get(&d, b"Filter").is_none();
+                        let candidate = if raw {
+                            plain_length_objs.range(body.len()..).next().filter(|(l, _)| **l - body.len() <= 2048).map(|(l, n)| (*l, *n))
+                        } else {
+                            plain_length_objs.get(&body.len()).map(|n| (body.len(), *n))
+                        };
+                        match candidate {
+                            Some((l, n)) if e.d(3, "objstm-length-shared") != 0 => {
+                                ctx.count("objstm-length-object-shared");
+                                body.resize(l, b' ');
+                                layout.container_length_objs.insert(n);
+                                length = MObj::Ref(n, 0);
+                            }
+                            _ => {
+                                let n = next_id;
+                                next_id += 1;
+                                max_num = max_num.max(n);
+                                plain_length_objs.insert(body.len(), n);
+                                exp.insert((n, 0), int(body.len() as u64));
+                                late.push((n, int(body.len() as u64)));
+                                layout.container_length_objs.insert(n);
+                                length = MObj::Ref(n, 0);
+                            }
+                        }
+                    }
+                    d.push((b"Length".to_vec(), length));
                     if e.p([0, 300, 700], "dict-shuffle") {
                         e.shuffle(&mut d, "dict-perm");
                     }
                     let marks: [(&[u8], FieldKind); 3] =
                         [(b"N", ObjStmN), (b"First", ObjStmFirst), (b"Length", LengthValue)];
-                    let at = e.stream_obj((*cid, 0), &d, &body, &marks, ObjStmBody);
+                    // deliberately invalid (see `misdesignate`): the header of a container carries the number
+                    // of another container, so that two cross-reference entries lead to object streams that
+                    // claim the same object number
+                    let header_cid = if opts.misdesignate && !emitted_containers.is_empty() && e.d(4, "container-misnumber") == 3 {
+                        ctx.count("misnumbered-container-header");
+                        emitted_containers[e.d(emitted_containers.len() as u64, "container-misnumber-as")]
+                    } else {
+                        *cid
+                    };
+                    emitted_containers.push(*cid);
+                    let at = e.stream_obj((header_cid, 0), &d, &body, &marks, ObjStmBody);
                     ents.insert(*cid, Ent::Used((at - base) as u64, 0));
                     for (idx, (n, _)) in group.iter().enumerate() {
                         if opts.misdesignate && e.d(3, "misdesignate") == 1 {
@@ -1093,6 +1155,11 @@ pub fn write_history_on(ctx: &Ctx, seed: Option<&Seed>, revisions: &[Revision], 
                     }
                 }
             }
+        }
+        for (n, lo) in &late {
+            e.gap();
+            let at = e.plain_obj((*n, 0), lo);
+            ents.insert(*n, Ent::Used((at - base) as u64, 0));
         }
         // object 0: always in revision 0 of a table; optional elsewhere (and needed if nothing else is there)
         let zero = match (ri, style) {
